@@ -335,9 +335,16 @@ Definition conforms (Rs : struct_table) (c : fclass) (v : value) : bool :=
 
 (* the node has exactly the fields of its struct, each of the documented shape; in particular
    every child not documented "or nil" is present *)
+(* the fields the Reading excludes from "child" (aliases) are not required to be present *)
+Definition relax (k : string) (fc : string * fclass) : string * fclass :=
+  if always_excl k (fst fc)
+  then (fst fc, match snd fc with FNode _ => FNode true | c => c end)
+  else fc.
+Definition eff_struct (k : string) (sf : list (string * fclass)) : list (string * fclass) := map (relax k) sf.
+
 Definition wf_node (S Rs : struct_table) (n : node) : bool :=
   match assoc (kind n) S with
-  | Some sf => conforms_fields (conforms Rs) sf (fields n)
+  | Some sf => conforms_fields (conforms Rs) (eff_struct (kind n) sf) (fields n)
   | None => false
   end.
 
@@ -453,7 +460,8 @@ Definition template_complete (Rs : struct_table) (k : string) (sf : list (string
 (* everything the theorems need from the regenerated tables: T = walk table, S = node structs,
    Rs = record structs.  Decidable, discharged by vm_compute on Gen/*. *)
 Definition kind_ok (T : walk_table_t) (Rs : struct_table) (ksf : string * list (string * fclass)) : bool :=
-  let (k, sf) := ksf in
+  let (k, sf0) := ksf in
+  let sf := eff_struct k sf0 in
   match assoc k T, assoc k src_template with
   | Some steps, Some its =>
       forall2b step_matches steps its && forallb (step_ok Rs sf) steps && template_complete Rs k sf its
